@@ -246,12 +246,17 @@ type c08ArityCase struct {
 	Filter string `json:"filter"`
 	NArgs  int    `json:"nargs"`
 	Recv   string `json:"recv"`
+	Arg    string `json:"arg,omitempty"` // spelling of every argument ("" = 1, 2, 3, ...)
 }
 
 var c08Arity = hx.Define("c08.unknown-or-excess", func(c *c08ArityCase, s *hx.Sub) *hx.Violation {
 	args := []string{}
 	for i := 0; i < c.NArgs; i++ {
-		args = append(args, fmt.Sprint(i+1))
+		if c.Arg != "" {
+			args = append(args, c.Arg)
+		} else {
+			args = append(args, fmt.Sprint(i+1))
+		}
 	}
 	src := "{{ " + c.Recv + " | " + c.Filter
 	if len(args) > 0 {
@@ -268,6 +273,31 @@ var c08Arity = hx.Define("c08.unknown-or-excess", func(c *c08ArityCase, s *hx.Su
 	s.NT()
 	if s.WantSample() {
 		s.Sample(map[string]any{"template": src, "error": o.Err.Error()})
+	}
+	return nil
+})
+
+// (6) literals denote themselves
+
+type c08LitCase struct {
+	Lit  string `json:"lit"`
+	Want string `json:"want"`
+}
+
+var c08Literal = hx.Define("c08.literals", func(c *c08LitCase, s *hx.Sub) *hx.Violation {
+	// the literal is printed, compared with itself, passed through assign and used as a filter argument
+	src := "{{ " + c.Lit + " }}|{% assign v = " + c.Lit + " %}{{ v }}|{{ v == " + c.Lit + " }}|{{ '' | append: " + c.Lit + " }}"
+	o := hx.Render(src, nil)
+	if o.Panic != nil {
+		return hx.V("panic@"+o.Panic.Site, "%s: %v", src, o.Panic)
+	}
+	want := c.Want + "|" + c.Want + "|true|" + c.Want
+	if !o.OK() || o.Out != want {
+		return hx.V("c08:literal", "%s rendered %v, expected %q: a literal denotes itself", src, o, want)
+	}
+	s.NT()
+	if s.WantSample() {
+		s.Sample(map[string]any{"template": src, "output": o.Out})
 	}
 	return nil
 })
@@ -351,12 +381,25 @@ func TestC08(t *testing.T) {
 		}
 	})
 
+	lit := c08Literal.On(col, "exhaustive over a list of literal spellings: integers (0, negative, leading zeros, the int64 extremes), floats d.d, true/false, strings in both quote styles containing the other quote, spaces, Unicode, pipes, colons, brackets, percent signs and (single) braces; oracle: printed, assigned-then-printed, equal to itself, and appended to the empty string, the literal denotes itself. Distinct by construction", true)
+	lits := []c08LitCase{{"0", "0"}, {"7", "7"}, {"-7", "-7"}, {"007", "7"}, {"9223372036854775807", "9223372036854775807"}, {"-9223372036854775808", "-9223372036854775808"},
+		{"1.5", "1.5"}, {"-0.25", "-0.25"}, {"2.0", "2"}, {"10.50", "10.5"}, {"true", "true"}, {"false", "false"},
+		{`"abc"`, "abc"}, {`'abc'`, "abc"}, {`"it's"`, "it's"}, {`'say "hi"'`, `say "hi"`}, {`" padded "`, " padded "}, {`"é😀"`, "é😀"}, {`"a | b: c, d"`, "a | b: c, d"},
+		{`"x[0].y"`, "x[0].y"}, {`"100%"`, "100%"}, {`"{ brace }"`, "{ brace }"}, {`"and or contains nil true"`, "and or contains nil true"}, {`""`, ""}, {`''`, ""}, {`"(1..3)"`, "(1..3)"}, {`"line1\nline2"`, `line1\nline2`}} // no escapes in Liquid strings: backslash-n stays two characters
+	for i := range lits {
+		if env.Mine(i) {
+			lit.Run(&lits[i])
+		}
+	}
+
 	ar := c08Arity.On(col, "exhaustive: every standard filter with five arguments (more than any takes), and unknown filter names with 0..2 arguments, on string/array/number receivers; oracle: an error is returned. Distinct by construction", true)
 	for _, f := range si.Filters {
 		for _, r := range []string{"x", "a", "n"} {
 			idx++
 			if env.Mine(idx) {
 				ar.Run(&c08ArityCase{Filter: f, NArgs: 5, Recv: r})
+				// surplus arguments that evaluate to nil are still arguments
+				ar.Run(&c08ArityCase{Filter: f, NArgs: 5, Recv: r, Arg: []string{"nil", "undefined_name", "x.nokey", "\"s\""}[idx%4]})
 			}
 		}
 	}
